@@ -193,9 +193,9 @@ def run(tier, seed):
         cold_h = list(range(1, 45))
     else:
         constructs = list(CONSTRUCTS)
-        depths = [6, 12, 25, 45, 80, 130, 250]
+        depths = [6, 12, 45, 80, 130, 250]
         entries = ENTRIES
-        hs_rel = list(range(0, 120)) + list(range(120, 700, 4))
+        hs_rel = list(range(0, 120)) + list(range(120, 700, 8))
         cold_h = list(range(1, 80))
 
     def work_h(item):
@@ -205,7 +205,7 @@ def run(tier, seed):
     for c in constructs:
         for d in depths:
             for (entry, opts) in entries:
-                for rel in hs_rel:
+                for rel in (hs_rel if d < 250 else hs_rel[::3]):      # (every call is made twice since the differential oracle)
                     cases.append((c, d, hmin[(entry, opts)] + rel, entry, opts, True))
     # cold lexer: the process's first call happens under the lowered limit (every head-room from 1)
     for c in constructs[:3]:
